@@ -13,6 +13,7 @@ from __future__ import annotations
 import contextlib
 import inspect
 import json
+import os
 
 import numpy as np
 
@@ -365,6 +366,41 @@ def check_loaded_flow(chk):
         shutil.rmtree(tmp, ignore_errors=True)
 
 
+def check_fresh_processes(chk):
+    """the same explicit seeds give the same result in ANOTHER process and whatever ran earlier in the process: the reference analysis
+    alone (interpreter hash seed 1) and after an unrelated analysis of another dimensionality (interpreter hash seed 2)"""
+    import subprocess
+    import sys
+
+    env0 = dict(os.environ)
+    procs = []
+    for mode, hs in (("alone", "1"), ("after", "2")):
+        env = dict(env0, PYTHONHASHSEED=hs, PYTHONPATH=os.pathsep.join([str(core.VERIF)] + [p_ for p_ in env0.get("PYTHONPATH", "").split(os.pathsep) if p_]))
+        procs.append((mode, subprocess.Popen([sys.executable, "-m", "harness.props.c20_child", mode], cwd=str(core.VERIF), env=env,
+                                             stdout=subprocess.PIPE, stderr=subprocess.PIPE, text=True)))
+    res = {}
+    for mode, pr in procs:
+        try:
+            out, err = pr.communicate(timeout=900)
+        except subprocess.TimeoutExpired:
+            pr.kill()
+            raise core.HarnessError(f"c20 child `{mode}` timed out")
+        if pr.returncode != 0:
+            chk.fail("run total", {"level": "fresh_process", "mode": mode}, (err or out)[-300:], {"clause": "raise", "level": "fresh_process"})
+            return
+        res[mode] = json.loads(out.strip().splitlines()[-1])
+    for what in ("smc_default_options", "preconditioning_flow"):
+        a, b = res["alone"].get(what), res["after"].get(what)
+        case = {"level": "fresh_process", "what": what, "alone": a, "after_an_unrelated_analysis_other_hash_seed": b}
+        chk.count("fresh_process:" + what)
+        chk.case(case, json.dumps([what]))
+        if str(a).startswith("ERROR") or str(b).startswith("ERROR"):
+            chk.fail("run total", case, f"{a} / {b}", {"clause": "raise", "level": "fresh_process", "what": what})
+        elif a != b:
+            chk.fail("same explicit sources give bit-identical results", case,
+                     f"{what}: the same seeds give another result in another process / after an unrelated earlier analysis", {"clause": "reproducible", "level": "fresh_process", "what": what})
+
+
 def run(chk: core.Check):
     r = np.random.default_rng(chk.seed + 20020)
     quick = chk.tier == "quick"
@@ -379,6 +415,8 @@ def run(chk: core.Check):
     check_reuse(chk, r, 3 if quick else 30)
     check_loaded_flow(chk)
     check_flows(chk, quick)
+
+    check_fresh_processes(chk)
 
     def search():
         sub = core.Check(chk.pid, chk.tier, chk.seed)
